@@ -9,6 +9,7 @@ import (
 	"fmt"
 	"sort"
 	"strings"
+	"sync/atomic"
 
 	txfile "github.com/elastic/go-txfile"
 	"github.com/elastic/go-txfile/txerr"
@@ -164,19 +165,23 @@ type Session struct {
 	ErrCount map[string]int
 	stamp    uint64
 
-	CommitN int // number of commit attempts (for disk marks)
-	History []SpecState // committed spec states, History[0] = fresh file
-	Reach map[int]string // commit number -> physical pages (with content hashes) the committed state depends on
-	resized bool // max size was changed on a reopen
-	extentLimit uint64 // C14: no write beyond this after a shrink (0 = unchecked)
-	LastCommit string // result of the last Commit
-	FaultKind string // kind of I/O call a fault plan targets (fault check)
-	IOFault bool // set by fault plans when an injected fault hit
-	finalSyncFailAt int // log length when a commit last failed only in its final sync
+	CommitN         int            // number of commit attempts (for disk marks)
+	History         []SpecState    // committed spec states, History[0] = fresh file
+	Reach           map[int]string // commit number -> physical pages (with content hashes) the committed state depends on
+	resized         bool           // max size was changed on a reopen
+	boundPages      uint64         // session-only limit used when opening an unbounded file (0: none)
+	extentLimit     uint64         // C14: no write beyond this after a shrink (0 = unchecked)
+	LastCommit      string         // result of the last Commit
+	FaultKind       string         // kind of I/O call a fault plan targets (fault check)
+	IOFault         bool           // set by fault plans when an injected fault hit
+	finalSyncFailAt int            // log length when a commit last failed only in its final sync
 }
 
 // Current is the session receiving trace points (one per process at a time).
 var Current *Session
+
+// LastOp names the library call in progress (for hang reports).
+var LastOp atomic.Value
 
 func init() {
 	txfile.VerifSetHook(func(name string, args ...uint64) {
@@ -291,6 +296,7 @@ func (s *Session) guard(op string, fn func() error) (res string) {
 		}
 	}()
 	s.OpCount[op]++
+	LastOp.Store("txfile " + op)
 	r := ErrKind(fn())
 	if r != "ok" {
 		s.ErrCount[op+"="+r]++
@@ -381,7 +387,13 @@ func (s *Session) emitSnap() {
 // operations
 
 // Open opens (or creates) the file with the session's configuration.
-func (s *Session) Open() string { return s.OpenWith(s.Cfg.Options(), "open") }
+func (s *Session) Open() string {
+	opts := s.Cfg.Options()
+	if s.Cfg.MaxPages == 0 && s.boundPages > 0 {
+		opts.MaxSize = s.boundPages * uint64(s.Cfg.PageSize) // session limit on an unbounded file
+	}
+	return s.OpenWith(opts, "open")
+}
 
 // OpenWith opens with explicit options.
 func (s *Session) OpenWith(opts txfile.Options, label string) string {
